@@ -23,7 +23,8 @@ structure St where
   av : Avl.Tree := .nil
   rbUs : Nat := 1
   rb : Option (Ring.Ring Bytes) := none
-  xs : Option XStr.XStr := none
+  xs : Option XStr.XStr := none          -- user data slot of the iwxstr
+  xm : Option XStr.XMem := none          -- its buffer, statement-level model
   po : Option Pool.Sys := none
 
 def joinWith (sep : String) (xs : List String) : String := sep.intercalate xs
@@ -239,44 +240,57 @@ def rbStep (s : St) (ws : List String) : St × String :=
     | ["destroy"] => ({ s with rb := none }, "destroy leak=0")
     | _ => (s, "bad-op")
 
-def xsDump (x : XStr.XStr) : String :=
-  s!" size={x.data.length} asize={x.asize} {hexOut x.data} term={if x.term then 1 else 0}"
+def XJUNK : Nat := 256     -- an uninitialised cell: no byte value, in particular not a NUL
+
+def xsDump (x : XStr.XMem) : String :=
+  s!" size={x.size} asize={x.asize} {hexOut x.data} term={if x.term then 1 else 0}"
 def udFree (ids : List Nat) : String := freeStr (ids.map fun i => s!"u{i}")
 
+/-- the buffer of the iwxstr lives in the statement-level model `XStr.XMem` (a memory fault prints `FAULT`);
+the user-data slot in the abstract `XStr` -/
 def xsStep (s : St) (ws : List String) : St × String :=
   match ws with
-  | ["new", siz] => ({ s with xs := some (XStr.create (natArg siz)) }, "ok")
-  | ["wrap", h, as] => ({ s with xs := some (XStr.wrap (hexArg h) (natArg as)) }, "ok")
+  | ["new", siz] =>
+    (match XStr.mcreate XJUNK (natArg siz) with
+     | some m => ({ s with xs := some (XStr.create (natArg siz)), xm := some m }, "ok")
+     | none => (s, "FAULT"))
+  | ["wrap", h, as] =>
+    (match XStr.mwrap XJUNK (hexArg h) (natArg as) with
+     | some m => ({ s with xs := some (XStr.wrap (hexArg h) (natArg as)), xm := some m }, "ok")
+     | none => (s, "FAULT"))
   | _ =>
-  match s.xs with
-  | none => (s, "no-xstr")
-  | some x =>
+  match s.xs, s.xm with
+  | some x, some m =>
+    let upd (tag : String) (r : Option XStr.XMem) : St × String :=
+      match r with
+      | none => (s, "FAULT")
+      | some m' => ({ s with xm := some m' }, tag)
+    let updOk (tag : String) (r : Option (XStr.XMem × Bool)) : St × String :=
+      match r with
+      | none => (s, "FAULT")
+      | some (m', ok) => ({ s with xm := some m' }, s!"{tag} {err ok}")
     match ws with
-    | ["cat", h] => ({ s with xs := some (XStr.cat x (hexArg h)) }, "cat 0")
-    | ["cat2", h] => ({ s with xs := some (XStr.cat x (hexArg h)) }, "cat2 0")
-    | ["unshift", h] => ({ s with xs := some (XStr.unshift x (hexArg h)) }, "unshift 0")
-    | ["shift", n] => ({ s with xs := some (XStr.shift x (natArg n)) }, "shift")
-    | ["pop", n] => ({ s with xs := some (XStr.pop x (natArg n)) }, "pop")
-    | ["insert", p, h] => let (x', ok) := XStr.insert x (natArg p) (hexArg h); ({ s with xs := some x' }, s!"insert {err ok}")
+    | ["cat", h] => upd "cat 0" (XStr.mcat XJUNK m (hexArg h) (hexArg h).length)
+    | ["cat2", h] => upd "cat2 0" (XStr.mcat XJUNK m (hexArg h) (hexArg h).length)
+    | ["unshift", h] => upd "unshift 0" (XStr.munshift XJUNK m (hexArg h) (hexArg h).length)
+    | ["shift", n] => upd "shift" (XStr.mshift m (natArg n))
+    | ["pop", n] => upd "pop" (XStr.mpop m (natArg n))
+    | ["insert", p, h] => updOk "insert" (XStr.minsert XJUNK m (natArg p) (hexArg h) (hexArg h).length)
     | ["printf", h, v] =>
       -- through the 1024-byte stack buffer / heap buffer switch of `iwxstr_printf_va`
-      match XStr.printfBytes (XStr.fmt (hexArg h) (intArg v)) with
-      | none => (s, "FAULT")
-      | some b => ({ s with xs := some (XStr.cat x b) }, "printf 0")
-    | ["iprintf", p, h, v] =>
-      match XStr.printfBytes (XStr.fmt (hexArg h) (intArg v)) with
-      | none => (s, "FAULT")
-      | some b => let (x', ok) := XStr.insert x (natArg p) b; ({ s with xs := some x' }, s!"iprintf {err ok}")
-    | ["clear"] => ({ s with xs := some (XStr.clear x) }, "clear")
-    | ["setsize", n] => let x' := XStr.setSize x (natArg n); ({ s with xs := some x' }, s!"setsize 0 size={x'.data.length} asize={x'.asize}")
-    | ["clone"] => (s, "clone" ++ xsDump (XStr.clone x))
+      upd "printf 0" (XStr.mprintf XJUNK m (XStr.fmt (hexArg h) (intArg v)))
+    | ["iprintf", p, h, v] => updOk "iprintf" (XStr.minsertPrintf XJUNK m (natArg p) (XStr.fmt (hexArg h) (intArg v)))
+    | ["clear"] => upd "clear" (XStr.mclear m)
+    | ["setsize", n] => let m' := XStr.msetSize XJUNK m (natArg n); ({ s with xm := some m' }, s!"setsize 0 size={m'.size} asize={m'.asize}")
+    | ["clone"] => (s, match XStr.mclone XJUNK m with | some c => "clone" ++ xsDump c | none => "FAULT")
     | ["ud", id] => let (x', f) := XStr.udSet x (natArg id); ({ s with xs := some x' }, "ud" ++ udFree f)
     | ["udget"] => (s, s!"udget {x.ud.getD 0}")
     | ["uddetach"] => let (x', id) := XStr.udDetach x; ({ s with xs := some x' }, s!"uddetach {id}")
-    | ["dump"] => (s, "dump" ++ xsDump x)
-    | ["destroy"] => ({ s with xs := none }, "destroy" ++ udFree (XStr.destroy x) ++ " leak=0")
-    | ["keep"] => ({ s with xs := none }, "keep ptr" ++ udFree (XStr.destroy x) ++ " leak=0")
+    | ["dump"] => (s, "dump" ++ xsDump m)
+    | ["destroy"] => ({ s with xs := none, xm := none }, "destroy" ++ udFree (XStr.destroy x) ++ " leak=0")
+    | ["keep"] => ({ s with xs := none, xm := none }, "keep ptr" ++ udFree (XStr.destroy x) ++ " leak=0")
     | _ => (s, "bad-op")
+  | _, _ => (s, "no-xstr")
 
 def poStat (p : Pool.Pool) : String := s!" usiz={p.usiz} asiz={p.asiz}"
 
